@@ -1,15 +1,24 @@
+import importlib.util, os
+_spec = importlib.util.spec_from_file_location("c11_tie", os.path.join(os.path.dirname(os.path.abspath(__file__)), "C11_tie.py"))
+c11_tie = importlib.util.module_from_spec(_spec); _spec.loader.exec_module(c11_tie)
 T = "GeomV.C12."
 CFG = {
     "id": "C12",
-    "lean_modules": ["GeomV.C12.Proofs"],
+    "lean_modules": ["GeomV.C12.Proofs"] + c11_tie.C12_TIES,
     "lean_dirs": ["C11", "C12"],
     "exe": "geomv_c12",
     "go_cmd": "c12",
     "stages": ["go:gen", "go:impl", "lean:judge"],
     "theorems": [T + n for n in [
         "C12_minDist_spec", "C12_minMaxDist_spec", "C12_prune_sound_k1", "C12_nn", "C12_empty",
-        "C12_insertNearest_topk", "C12_knn", "C12_knn_one", "C12_knn_all", "C12_stableOrder_ok", "C12_history", "C12_knn_empty"]],
+        "C12_insertNearest_topk", "C12_knn", "C12_knn_one", "C12_knn_all", "C12_stableOrder_ok", "C12_history", "C12_knn_empty",
+        # T1: minDist / minMaxDist regenerated from index/rtree/geom.go of the tree under test = the model's
+        "C12_tie_minDist", "C12_tie_minMaxDist", "C12_minDist_spec_src", "C12_minMaxDist_spec_src"]],
     "trusted_base": [
+        "T1: harness/cmd/c11/extract.go regenerates lean/GeomV/C11/Gen.lean from index/rtree/geom.go of the tree under test on every "
+        "run; C12/Ties prove Gen.minDist = minDist and Gen.minMaxDist = minMaxDist (math.MaxFloat64 = a parameter above the first "
+        "candidate); control-skeleton tie of nearestNeighbor / NearestNeighbors / nearestNeighbors / insertNearest / sortEntries / "
+        "pruneEntries and the Rtree struct fields against harness/cmd/c11/skeleton.expected",
         "Lean 4.33.0 kernel; axioms of every theorem printed by #print axioms must be within {propext, Classical.choice, Quot.sound}",
         "model lean/GeomV/C12/Model.lean (nearestNeighbor, nearestNeighbors, insertNearest, sortEntries as a visiting-order parameter, "
         "pruneEntries, minDist, minMaxDist) on the C11 tree model; tied to /repo/index/rtree by the correspondence run: the final tree "
@@ -33,3 +42,10 @@ CFG = {
     "explanation": "SPEC verdicts: Spec.specNN / Spec.specKNN evaluated on the implementation's answer against the multiset of objects "
                    "stored according to the history semantics (ties by distance, not identity).",
 }
+
+
+def pregen(check):
+    c11_tie.pregen(check, c11_tie.C12_TIES)
+
+
+CFG["pregen"] = pregen
